@@ -126,6 +126,16 @@ ApplyStep(d, s) ==
 
 ApplyServed(sv, s) == IF s.op = "Serve" THEN sv \cup {s.a} ELSE sv
 
+\* how many committed bolt write transactions of <<dkg.db, chain db>> a step IS: a step that
+\* touches a database is exactly ONE transaction of it (SaveFinished writes both buckets in one
+\* db.Update; one transaction per beacon), so no crash can fall inside it.  The harness observes
+\* the commits of both files at their real grain (bbolt's page writer); more or fewer commits
+\* than this is a conformance difference, and a crash after an extra commit is a crash point
+\* of its own, judged by the monitors like any other.
+Commits(op) == CASE op \in {"SaveCurrentTx", "SaveFinishedTx"} -> <<1, 0>>
+                 [] op = "BeaconTx" -> <<0, 1>>     \* (GenesisTx = creating the db + genesis put, before the chain db is watched)
+                 [] OTHER -> <<0, 0>>
+
 -----------------------------------------------------------------------------
 (* Restart: LoadBeaconsFromDisk -> LoadBeaconFromStore                        *)
 (*   status := DKGStatus; freshRun := status.Complete == nil                  *)
@@ -153,10 +163,11 @@ RestartOf(d0) ==
                finishedEpoch |-> d1.fin[1],
                finWhole |-> (d1.fin[2] = d1.fin[1] /\ d1.fin[3] = d1.fin[1]),
                chainRounds |-> d.chain, chainVerifies |-> TRUE,
+               cur |-> d1.cur,
                outcome |-> outcome]]
 
 NoRec == [groupEpoch |-> 0, shareEpoch |-> 0, finishedEpoch |-> 0, finWhole |-> TRUE,
-          chainRounds |-> {}, chainVerifies |-> TRUE, outcome |-> "none"]
+          chainRounds |-> {}, chainVerifies |-> TRUE, cur |-> FreshCur, outcome |-> "none"]
 
 -----------------------------------------------------------------------------
 (* Monitors: the statement of C13, over what a restart finds (r) and what was *)
@@ -183,7 +194,18 @@ Mon_KeyEpoch(r) == r.groupEpoch = r.shareEpoch /\ r.groupEpoch = r.finishedEpoch
 \* completed a DKG has nothing to resume and starts fresh.
 Mon_Resumes(r) == IF r.finishedEpoch = 0 THEN r.outcome = "startsFresh" ELSE r.outcome = "resumes"
 
-Mon_C13(r, sv) == Mon_ChainIntact(r, sv) /\ Mon_FinishedWhole(r) /\ Mon_KeyEpoch(r) /\ Mon_Resumes(r)
+\* "a key-generation database whose completed record is one whole epoch ... resumes without
+\* operator repair": the DKG state the restarted node reports must be usable for the next
+\* proposal.  The current record is never behind the completed one, and if both name the same
+\* epoch the current record IS the Complete one.  (Otherwise, e.g. completed = N and current =
+\* Executing N: Executing is not terminal, so Packet/Command do not fall back to the completed
+\* record, and Executing -> Proposed is not a legal move: every later proposal is refused
+\* until the database is repaired by hand.)
+DkgUsable(cur, finE) == finE = 0 \/ cur[1] > finE \/ (cur[1] = finE /\ cur[2] = "Complete")
+Mon_DkgDbConsistent(r) == DkgUsable(r.cur, r.finishedEpoch)
+
+Mon_C13(r, sv) == /\ Mon_ChainIntact(r, sv) /\ Mon_FinishedWhole(r) /\ Mon_DkgDbConsistent(r)
+                  /\ Mon_KeyEpoch(r) /\ Mon_Resumes(r)
 
 -----------------------------------------------------------------------------
 (* classification of a crash point (used in alarm signatures, not in verdicts) *)
@@ -249,6 +271,7 @@ TypeOK == /\ pc \in 1..(Len(steps) + 1)
 \* parts of the statement that the design keeps at every crash point
 Inv_ChainIntact == mode = "up" => Mon_ChainIntact(rec, served)
 Inv_FinishedWhole == mode = "up" => Mon_FinishedWhole(rec)
+Inv_DkgDbConsistent == mode = "up" => Mon_DkgDbConsistent(rec)
 \* the whole statement; the design as coded does NOT keep it (F10): TLC reports a model
 \* counterexample which becomes a verdict only through the replay on the real code
 Inv_C13 == mode = "up" => Mon_C13(rec, served)
